@@ -31,7 +31,7 @@ EXPLANATION = (
 )
 TRUSTED = [
     "pyvc VC generator and its encoding of Python ints/lists/tuples (DESIGN §3.1)",
-    "z3 5.1.0 / cvc5 1.0.3",
+    "z3 5.1.0 / cvc5 1.4.0",
     "ShmAllocator._read_allocs/_write_allocs are an inverse pair on tables with len<=MAX_ALLOCS and fields in [0,2^64) (struct '<QQ'); exercised by the bounded stand-in on real buffers",
 ]
 ASSUMPTIONS = [
